@@ -18,6 +18,9 @@ import (
 
 const (
 	EncodingDeflate = "urn:oasis:names:tc:SAML:2.0:bindings:URL-Encoding:DEFLATE"
+
+	// MaxInflatedSize limits the size of a decompressed message (the limit net/http places on form bodies)
+	MaxInflatedSize = 10 << 20
 )
 
 func Marshal(data interface{}) ([]byte, error) {
@@ -154,7 +157,14 @@ func InflateAndDecode(encoding string, b64 bool, message string) (_ []byte, err 
 	case EncodingDeflate:
 		r := flate.NewReader(bytes.NewBuffer(data))
 		defer r.Close()
-		return io.ReadAll(r)
+		inflated, err := io.ReadAll(io.LimitReader(r, MaxInflatedSize+1))
+		if err != nil {
+			return nil, err
+		}
+		if len(inflated) > MaxInflatedSize {
+			return nil, fmt.Errorf("inflated message exceeds %d bytes", MaxInflatedSize)
+		}
+		return inflated, nil
 	default:
 		return nil, fmt.Errorf("unknown encoding")
 	}
